@@ -439,6 +439,37 @@ func tieGraphs(r *Rng, st *Stats, cf *CoqFile, n int) {
 			st.Histogram["ts-off-drops-pure-part"]++
 		}
 	}
+	// fixed scenario: re-export chains (named re-export and export star, two hops)
+	{
+		files := map[string]string{
+			"m0.js": "import { y, z, w } from \"./m1.js\";\n$p(\"0:1\", y);\nconst unusedLocal = z;\n$p(\"0:2\", w);\n",
+			"m1.js": "export { x as y } from \"./m2.js\";\nexport * from \"./m3.js\";\nexport { w } from \"./m4.js\";\n",
+			"m2.js": "export const x = 1;\nexport const other = $p(\"2:1\");\n",
+			"m3.js": "export const z = 2;\n",
+			"m4.js": "export { v as w } from \"./m2b.js\";\n",
+			"m2b.js": "export const v = 3;\n",
+		}
+		dumps, _, errText := linkWithDump(files, linkOpts{format: config.FormatESModule, treeShaking: true, entries: []string{"m0.js"}})
+		if errText == "" && len(dumps) == 1 {
+			links := 0
+			for _, f := range dumps[0].Files {
+				for _, b := range f.Bindings {
+					if len(b.LocalPartsWithUses) > 0 {
+						links += len(b.ReExports)
+					}
+				}
+			}
+			st.Histogram["reexport-scenario-chain-links-with-users"] += links
+			term, _ := dumpToCoq(dumps[0])
+			items = append(items, term)
+			st.Note("graph", "reexport-scenario", true)
+			if bad := checkDumpPredicates(dumps[0]); bad != "" {
+				st.Fail("liveness-closure", map[string]interface{}{"files": files, "options": "bundle esm treeShaking=true entry m0.js"}, bad, "a live part that uses an import depends on every re-export statement of its chain")
+			}
+		} else {
+			st.Fail("valid-graph-rejected", map[string]interface{}{"files": files}, errText, "no error")
+		}
+	}
 	cf.AddCases("graph_cases", "list Z", "check_graph", items)
 }
 
@@ -652,6 +683,7 @@ func glue(r *Rng, st *Stats, n int) {
 	}
 	defer os.RemoveAll(root)
 	knownScenarioCJSOrder(root, st)
+	fixedTreeShakingScenarios(root, st)
 	g := &mgen{r: r}
 	var cases []*glueCase
 	for i := 0; i < nc; i++ {
@@ -943,5 +975,70 @@ func knownScenarioCJSOrder(root string, st *Stats) {
 	if !out[0].Same(out[1]) && out[0].Err() == "" && out[1].Err() == "" {
 		st.Fail("known-ts-off-reorders-cjs-import", map[string]interface{}{"scenario": "known-ts-off-reorders-cjs-import", "files": files,
 			"options": "bundle format=esm, treeShaking true vs false"}, out[1].String(), out[0].String())
+	}
+}
+
+// Fixed scenarios: tree shaking on vs off through api.Build, executed in Node.
+//   known-nested-var-use-not-linked (finding C04-B, known_findings.d/C04.json):
+//     a use of a top-level var through a nested redeclaration `{ var n; use(n) }`
+//     is recorded under the unmerged nested symbol, the linker's
+//     TopLevelSymbolToParts lookup finds nothing, no dependency is created and
+//     the top-level `var n = 1` is tree-shaken: the bundle prints undefined.
+//   nested-var-redeclare-assignment (regression of fix 0bc1420): the nested
+//     declaration must survive --minify-syntax block flattening.
+func fixedTreeShakingScenarios(root string, st *Stats) {
+	type scen struct {
+		what  string
+		src   string
+		minif bool
+		known bool
+	}
+	scens := []scen{
+		{"known-nested-var-use-not-linked", "var n = 1;\n{ var n; $p(\"use\", n); }\n", false, true},
+		{"known-nested-var-use-not-linked", "function f() { return 1; }\nif (true) { var f; $p(\"use\", typeof f); }\n", false, true},
+		{"nested-var-redeclare-assignment", "var x = 1;\n{ var x = \"a\"; }\n$p(\"typeof\", typeof x);\n", true, false},
+		{"nested-var-redeclare-assignment", "var y = 1;\nif (true) { var y = [$p(\"init\")]; }\n$p(\"typeof\", typeof y);\n", true, false},
+		// regression of fix 5379ad1: a call to an EMPTY function still evaluates its default arguments
+		{"empty-function-default-argument", "function f(a = $p(\"default\")) {}\nf();\n$p(\"end\");\n", true, false},
+		{"empty-function-default-argument", "const g = (a, b = $p(\"default\")) => {};\nconst unused = g(1);\n$p(\"end\");\n", true, false},
+		{"empty-function-default-argument", "function h({ a = $p(\"default\") } = {}) {}\nh(), h(void 0);\n$p(\"end\");\n", true, false},
+		{"empty-function-default-argument", "function k(a = $p(\"default\")) {}\nk();\n$p(\"end\");\n", false, false},
+	}
+	var progs []string
+	var idx []int
+	for i, sc := range scens {
+		dir := filepath.Join(root, fmt.Sprintf("fixed-%d", i))
+		os.MkdirAll(dir, 0o755)
+		if err := os.WriteFile(filepath.Join(dir, "m0.js"), []byte(sc.src), 0o644); err != nil {
+			panic(err)
+		}
+		for _, ts := range []api.TreeShaking{api.TreeShakingTrue, api.TreeShakingFalse} {
+			res := api.Build(api.BuildOptions{AbsWorkingDir: dir, EntryPoints: []string{"m0.js"}, Bundle: true, Write: false, Outfile: "out.js",
+				Format: api.FormatIIFE, TreeShaking: ts, MinifySyntax: sc.minif, LogLevel: api.LogLevelSilent})
+			if len(res.Errors) > 0 || len(res.OutputFiles) != 1 {
+				st.Fail("valid-graph-rejected", map[string]interface{}{"scenario": sc.what, "source": sc.src}, fmt.Sprint(res.Errors), "a bundle")
+				return
+			}
+			progs = append(progs, string(res.OutputFiles[0].Contents))
+		}
+		progs = append(progs, sc.src) // the source itself, as a script
+		idx = append(idx, i)
+	}
+	out, err := RunNodeScripts(progs, 8000)
+	if err != nil || len(out) != len(progs) {
+		return
+	}
+	for k, i := range idx {
+		sc := scens[i]
+		on, off, native := out[3*k], out[3*k+1], out[3*k+2]
+		st.Histogram["fixed-scenario:"+sc.what]++
+		if on.Err() == "TIMEOUT" || off.Err() == "TIMEOUT" || native.Err() == "TIMEOUT" {
+			continue
+		}
+		if !on.Same(off) || !on.Same(native) {
+			st.Fail(sc.what, map[string]interface{}{"scenario": sc.what, "files": map[string]string{"m0.js": sc.src},
+				"options": fmt.Sprintf("bundle format=iife minifySyntax=%v, treeShaking true vs false vs the source as a script", sc.minif), "bundle": progs[3*k]},
+				on.String(), native.String()+" (tree shaking off: "+off.String()+")")
+		}
 	}
 }
